@@ -1172,13 +1172,35 @@ func (an *analyzer) checkSentinel(r *Report) {
 	// whose first result is a []Token
 	parseFn := w.ssaFunc(w.method("Parser", "Parse"))
 	direct := map[*ssa.Function]bool{}
-	instrsOf(parseFn, func(in ssa.Instruction) {
-		if c, ok := in.(ssa.CallInstruction); ok {
-			if g := c.Common().StaticCallee(); g != nil {
-				direct[g] = true
+	// … or of an unexported helper with that single call site into which the tokenising phase of
+	// Parse was moved (a helper that returns nodes is the parsing phase, not looked into)
+	returnsNodes := func(g *ssa.Function) bool {
+		res := g.Signature.Results()
+		for i := 0; i < res.Len(); i++ {
+			t := res.At(i).Type()
+			if sl, ok := t.Underlying().(*types.Slice); ok {
+				t = sl.Elem()
+			}
+			if isNamed(t, twigPath, "Node") || w.implementsNode(t) {
+				return true
 			}
 		}
-	})
+		return false
+	}
+	var scan func(f *ssa.Function, depth int)
+	scan = func(f *ssa.Function, depth int) {
+		instrsOf(f, func(in ssa.Instruction) {
+			if c, ok := in.(ssa.CallInstruction); ok {
+				if g := c.Common().StaticCallee(); g != nil && !direct[g] {
+					direct[g] = true
+					if depth < 2 && w.inPkg(g) && g.Object() != nil && !g.Object().Exported() && len(g.Blocks) > 0 && !returnsNodes(g) && len(realInEdges(g)) == 1 {
+						scan(g, depth+1)
+					}
+				}
+			}
+		})
+	}
+	scan(parseFn, 0)
 	for _, fn := range w.pkgFuncs() {
 		if !direct[fn] {
 			continue
